@@ -30,7 +30,7 @@ Record kinput := {
   k_end : Z;             (* 0 no receive loop (the harness owns quit); 1 a receive loop whose read
                             fails once the connection is gone; 2 a receive loop that is handed the
                             server's closing tag; 3 a receive loop that is handed a stream error and
-                            whose read then fails *)
+                            whose read then fails; 4 a stream error whose handler reconnects *)
   k_client : bool        (* the loop was started by a Client built by NewClient (interval defaulted) *)
 }.
 
@@ -81,6 +81,10 @@ Definition recv_trace (i : kinput) : list Recv.action :=
   if k_end i =? 1 then Recv.crecv 0 0 None []
   else if k_end i =? 2 then Recv.crecv 0 0 None [Recv.IClose]
   else if k_end i =? 3 then Recv.crecv 0 0 None [Recv.IStreamError 0]
+  else if k_end i =? 4
+  then (* a stream error whose event handler reconnected the client itself: the loop leaves the
+          transport to the new session and returns, no Disconnected event *)
+       [Recv.AQuit; Recv.AEvStreamError; Recv.AErrCall]
   else [].
 
 Definition schedule (i : kinput) : list sel :=
